@@ -12,7 +12,9 @@
     * types as a tree `Ty` (what `Type`/`Array`/`List`/`Map`/`Varargs` objects look like after the
       type-resolution passes of MainTransformer);
     * the mutable part (the `introspectable` flags) is kept apart from the static part in `St`,
-      so that "flags only go from true to false" is a statement about `List Bool`.
+      so that "flags only go from true to false" is a statement about `List Bool`;
+    * the accessor names `_introspectable_property_analysis` clears (`prop.setter/getter`,
+      `method.set_property/get_property`) are computed from the final flags by `accessorsAfter`.
 
   Import-free apart from the Py library and generated tables: links into the compiled driver.
 -/
